@@ -34,9 +34,22 @@ import (
 const (
 	vfBasePatience = 5 * time.Second
 	vfJoinWatchdog = 60 * time.Second
+	// watchdog for the interceptor call itself (own goroutine); firing => inconclusive and the
+	// remaining cases of this process are skipped
+	vfWrapWatchdog = 40 * time.Second
 )
 
 var vfWaitBroken atomic.Bool
+
+var vfStuck atomic.Bool
+
+func vfSkipIfStuck(c *kit.Case) bool {
+	if vfStuck.Load() {
+		c.Inconclusive("skipped: an earlier interceptor call in this process never returned")
+		return true
+	}
+	return false
+}
 
 func vfPatience() time.Duration {
 	if vfWaitBroken.Load() {
@@ -230,7 +243,7 @@ func vfRun(x *vfExec) bool {
 	h := vfHandler(x)
 	req := "req-" + x.tag
 	x.t0 = time.Now()
-	func() {
+	go func() {
 		defer func() {
 			if p := recover(); p != nil {
 				x.panicked = true
@@ -242,6 +255,15 @@ func vfRun(x *vfExec) bool {
 		}()
 		x.gotResp, x.gotErr = icpt(parent, req, info, h)
 	}()
+	wt := time.NewTimer(vfWrapWatchdog)
+	select {
+	case <-x.wrapRet:
+		wt.Stop()
+	case <-wt.C:
+		vfStuck.Store(true)
+		close(x.giveUp)
+		return false
+	}
 	t := time.NewTimer(vfJoinWatchdog)
 	defer t.Stop()
 	select {
@@ -436,6 +458,9 @@ func vfFar(r *kit.Rand) (def, per, parent time.Duration) {
 }
 
 func vfCancelCase(c *kit.Case) {
+	if vfSkipIfStuck(c) {
+		return
+	}
 	r := c.R
 	evals := int64(0)
 	kit.WithLabel(c.ID, func() {
@@ -447,7 +472,7 @@ func vfCancelCase(c *kit.Case) {
 				i++
 				x := vfNewExec(pl, fmt.Sprintf("s%d-%d", c.Index, i))
 				if !vfRun(x) {
-					c.Inconclusive("could not join the handler (mode " + mode + ")")
+					c.Inconclusive("could not join the interceptor call or the handler (mode " + mode + ")")
 					return
 				}
 				v := vfEvaluate(c, x)
@@ -465,6 +490,9 @@ func vfCancelCase(c *kit.Case) {
 }
 
 func vfTimerCase(c *kit.Case) {
+	if vfSkipIfStuck(c) {
+		return
+	}
 	r := c.R
 	const par = 8
 	xs := make([]*vfExec, par)
